@@ -104,6 +104,13 @@ static void run_script(TLS_CONNECT *conn, const char *who, int dir, const char *
 				if (rc != 1 || sent == 0) return;
 				woff += 1;
 			}
+		} else if (op[0] == 'W') {           // one attempt to write n bytes that may be refused (TLCP / TLS 1.2 refuse to send while received data is still buffered): a refusal does not end the script
+			long n = atol(op + 1); uint8_t *data = malloc(n ? n : 1); for (long i = 0; i < n; i++) data[i] = fbyte(dir, woff + i);
+			size_t sent = 0; vt_begin("WriteBegin"); vt_str("who", who); vt_int("n", n); vt_end();
+			int rc = xsend(conn, data, (size_t)n, &sent);
+			vt_begin("Write"); vt_str("who", who); vt_int("n", n); vt_int("rc", rc); vt_int("sent", rc == 1 ? (long)sent : 0); vt_end();
+			if (rc == 1) woff += (long)sent;
+			free(data);
 		} else if (op[0] == 'w') {
 			long n = atol(op + 1), done = 0; uint8_t *data = malloc(n ? n : 1);
 			for (long i = 0; i < n; i++) data[i] = fbyte(dir, woff + i);
